@@ -702,7 +702,11 @@ fn collect_changes(
                         );
                         updates.take_added_entity(&mut mutations);
                     }
-                    ticks.set_mutation_tick(entity.id(), change_tick.this_run());
+                    // Keep the previous tick if the entity has a mutation that wasn't sent on this tick
+                    // due to its send rate. Otherwise it would be considered received.
+                    if mutations.entity_ack() {
+                        ticks.set_mutation_tick(entity.id(), change_tick.this_run());
+                    }
                 }
 
                 if new_entity && !updates.changed_entity_added() {
